@@ -140,9 +140,11 @@ struct Desc {
     bool sock = false;
     int snap = 0;            //!< lenient readiness mask (kR|kW|kX) from the harness's own poll() before the pass
     int snap_raw = 0;        //!< raw poll revents
+    int snap_strict = 0;     //!< conditions every back-end must report for this state (POLLIN|POLLHUP -> read, POLLOUT -> write)
     bool served = false;     //!< some event on it had a callback in this pass
     int nev = 0;             //!< alive events on it (== reference count of the shared record)
     int nev_snap = 0;        //!< nev when the pass started (order-independent criterion for the equiv leg)
+    bool cloexec = true;          //!< FD_CLOEXEC set on it (a per-descriptor random choice)
     bool reuse_pending = false;   //!< closed while an event on it was enabled (then disabled); the number will be re-opened
     bool record_survives = false; //!< ... and the loop's record of that number has been alive ever since
     bool reincarnated = false;    //!< the number was re-opened as a new channel end while the old record was alive
@@ -162,6 +164,10 @@ struct Ev {
     bool pending_delete = false;
     bool in_cb = false;
     int ncb = 0;
+    int nreinit = 0;         //!< successful re-initialisations
+    bool moved_since_cb = false; //!< re-initialised onto another descriptor since its latest callback
+    int epoch = 0;           //!< bumped by every enable / disable / re-initialise
+    int epoch_snap = 0;      //!< epoch when the pass started
     int last_cb_pass = -1;   //!< pass of the latest callback
     int nchildren = 0;
     uint64_t owner = 0;      //!< equiv mode: the only event whose callbacks may act on this one
@@ -181,6 +187,7 @@ struct World {
     std::string be;          //!< "epoll" / "select"
     Loop *loop = nullptr;
     uint64_t seed = 0;
+    vh::Rng rx;              //!< per-descriptor flags
     vh::Rng rs;              //!< structural decisions (setup, between passes); never used inside callbacks
     Options opt;
     std::vector<Desc> descs;
@@ -203,7 +210,7 @@ struct World {
     std::function<void(World &, Ev &, int)> script;   //!< directed mode: replaces the random actions
     bool quiet = false;      //!< second run of an equiv pair: do not log the script again
 
-    World(const std::string &backend, uint64_t s, const Options &o) : be(backend), seed(s), rs(vh::mix(s, 0x51)), opt(o) {}
+    World(const std::string &backend, uint64_t s, const Options &o) : be(backend), seed(s), rx(vh::mix(s, 0x77)), rs(vh::mix(s, 0x51)), opt(o) {}
 
     // ---------------------------------------------------------------- logging
     void log(const std::string &s) {
@@ -217,11 +224,17 @@ struct World {
     }
 
     // ---------------------------------------------------------------- descriptors
-    static void set_nonblock(int fd) { int fl = fcntl(fd, F_GETFL); fcntl(fd, F_SETFL, fl | O_NONBLOCK); fcntl(fd, F_SETFD, FD_CLOEXEC); }
+    static void set_nonblock(int fd, bool cloexec = true) {
+        int fl = fcntl(fd, F_GETFL);
+        fcntl(fd, F_SETFL, fl | O_NONBLOCK);
+        fcntl(fd, F_SETFD, cloexec ? FD_CLOEXEC : 0);
+    }
 
     int add_desc(int fd, int chan, int side, bool sock) {
         Desc d; d.fd = fd; d.open = true; d.chan = chan; d.side = side; d.sock = sock;
-        set_nonblock(fd);
+        d.cloexec = rx.chance(1, 2);
+        set_nonblock(fd, d.cloexec);
+        vh::counter(d.cloexec ? "desc_with_cloexec" : "desc_without_cloexec");
         descs.push_back(d);
         return (int)descs.size() - 1;
     }
@@ -291,7 +304,7 @@ struct World {
         std::vector<int> pidx(descs.size(), -1);
         for (size_t i = 0; i < descs.size(); ++i) {
             Desc &d = descs[i];
-            d.snap = 0; d.snap_raw = 0; d.served = false; d.nev_snap = d.nev;
+            d.snap = 0; d.snap_raw = 0; d.snap_strict = 0; d.served = false; d.nev_snap = d.nev;
             if (!d.open) continue;
             struct pollfd p; p.fd = d.fd; p.events = POLLIN | POLLOUT | POLLPRI | POLLRDHUP; p.revents = 0;
             pidx[i] = (int)pf.size();
@@ -308,6 +321,8 @@ struct World {
             if (p.revents & (POLLIN | POLLHUP | POLLERR | POLLRDHUP)) d.snap |= kR;
             if (p.revents & (POLLOUT | POLLERR | POLLHUP)) d.snap |= kW;
             if (p.revents & (POLLPRI | POLLERR | POLLHUP)) d.snap |= kX;
+            if (p.revents & (POLLIN | POLLHUP)) d.snap_strict |= kR;
+            if (p.revents & POLLOUT) d.snap_strict |= kW;
             if (d.snap) ++ready_fds;
             if (p.revents & POLLHUP) vh::counter("snap_fd_hup");
             if (p.revents & POLLERR) vh::counter("snap_fd_err");
@@ -321,6 +336,7 @@ struct World {
         for (auto &kv : evs) {
             Ev &e = *kv.second;
             e.enabled_snap = e.enabled;
+            e.epoch_snap = e.epoch;
             if (e.enabled && (descs[e.desc].snap & e.mask)) {
                 hot[e.desc]++;
                 if (descs[e.desc].reincarnated && descs[e.desc].record_survives) vh::counter("event_due_on_reused_fd_number_with_surviving_record");
@@ -380,17 +396,90 @@ struct World {
     void do_enable(Ev &e) {
         if (!e.enabled && descs[e.desc].reincarnated && descs[e.desc].record_survives)
             vh::counter("fd_closed_while_enabled_then_number_reused_and_reenabled");
+        ++e.epoch;
         bool ok = e.p->enable();
         VH_CHECK(ok, k("api/enable-returned-false"), "enable() of %s returned false", evname(e).c_str());
         e.enabled = true;
         VH_CHECK(e.p->isEnabled(), k("api/not-enabled-after-enable"), "isEnabled()==false right after enable() of %s", evname(e).c_str());
     }
     void do_disable(Ev &e) {
+        ++e.epoch;
         bool ok = e.p->disable();
         VH_CHECK(ok, k("api/disable-returned-false"), "disable() of %s returned false", evname(e).c_str());
         e.enabled = false;
         VH_CHECK(!e.p->isEnabled(), k("api/enabled-after-disable"), "isEnabled()==true right after disable() of %s", evname(e).c_str());
     }
+    //! initialize() on an event that was initialised before. Unchanged code: refused (false, nothing changes) while the
+    //! event is enabled; otherwise the event moves to the new descriptor's record (reference of the old one given back),
+    //! takes the new mask, and becomes one-shot if asked (a one-shot event is only ever re-initialised as one-shot).
+    bool reinit(Ev &e, int di, int mask, bool oneshot_req) {
+        Desc &nd = descs[di];
+        bool want_oneshot = e.oneshot || oneshot_req;
+        bool ok = e.p->initialize(nd.fd, (short)mask, want_oneshot ? Event::Mode::kOneshot : Event::Mode::kPersist);
+        if (e.enabled) {
+            VH_CHECK(!ok, k("api/initialize-of-enabled-event-returned-true"), "initialize() of enabled %s returned true", evname(e).c_str());
+            VH_CHECK(e.p->isEnabled(), k("api/initialize-of-enabled-event-disabled-it"), "refused initialize() left %s disabled", evname(e).c_str());
+            log(vh::fmt("%sreinit %s refused(enabled)", in_pass ? " " : "", evname(e).c_str())); sig.add(0xb0);
+            vh::counter("reinit_of_enabled_event");
+            return false;
+        }
+        VH_CHECK(ok, k("api/reinitialize-returned-false"), "initialize(fd=%d,%s) of disabled %s returned false", nd.fd, mask_str(mask).c_str(), evname(e).c_str());
+        std::string before = evname(e);
+        int holders = 0, enabled_holders = 0;
+        for (auto &kv : evs) if (kv.second != &e && kv.second->desc == di) { ++holders; if (kv.second->enabled) ++enabled_holders; }
+        if (di == e.desc) vh::counter("reinit_same_descriptor");
+        else {
+            Desc &od = descs[e.desc];
+            --od.nev;
+            if (od.nev == 0) { --nrecords; od.record_survives = false; vh::counter("record_released"); vh::counter("reinit_releases_old_record");
+                               if (in_pass) { record_freed_this_pass = true; vh::counter("record_released_in_callback"); } }
+            if (nd.nev == 0) { ++nrecords; vh::counter("record_allocated"); vh::counter("reinit_onto_unwatched_descriptor");
+                               int in_map = nrecords + (in_pass ? 1 : 0); if (in_map > max_records) max_records = in_map; }
+            else {
+                vh::counter("reinit_onto_descriptor_with_record");
+                if (enabled_holders) vh::counter("reinit_onto_descriptor_shared_with_enabled_events");
+                if (holders == 1 && enabled_holders == 1) vh::counter("reinit_onto_descriptor_with_one_enabled_holder");
+            }
+            ++nd.nev;
+        }
+        if (di != e.desc) e.moved_since_cb = true;    // served on the old descriptor, may be served on the new one in the same pass
+        e.desc = di; e.mask = mask; e.oneshot = want_oneshot;
+        ++e.epoch; ++e.nreinit;
+        log(vh::fmt("%sreinit %s -> %s", in_pass ? " " : "", before.c_str(), evname(e).c_str()));
+        sig.add(0xb1 + di * 8 + mask);
+        vh::counter(in_pass ? "reinit_in_callback" : "reinit_between_passes");
+        return true;
+    }
+    //! descriptor for a re-initialisation of t. kind 0 same descriptor, 1 one without a record, 2 one other events hold.
+    //! idle_only (equiv, inside callbacks): only descriptors that were not ready when the pass started, classified by the
+    //! pass-start record state, so that the choice does not depend on the service order
+    int pick_reinit_desc(const Ev &t, vh::Rng &r, bool idle_only) {
+        unsigned roll = (unsigned)r.below(10);
+        int kind = roll < 2 ? 0 : roll < 5 ? 1 : 2;
+        if (kind == 0) return descs[t.desc].open ? t.desc : -1;
+        std::vector<int> v;
+        for (size_t i = 0; i < descs.size(); ++i) {
+            const Desc &d = descs[i];
+            if (!d.open || !d.watchable || (int)i == t.desc) continue;
+            if (idle_only && d.snap_raw != 0) continue;
+            bool has = false;
+            if (idle_only) has = d.nev_snap > 0;
+            else for (auto &kv : evs) if (kv.second->desc == (int)i && kv.second->enabled) has = true;
+            if ((kind == 2) == has && (kind == 2 || (idle_only ? d.nev_snap == 0 : d.nev == 0))) v.push_back((int)i);
+        }
+        if (v.empty()) return -1;
+        return r.pick(v);
+    }
+    //! the reconnect pattern on t: (disable,) initialize() onto another descriptor, (enable)
+    void act_reinit(Ev &t, vh::Rng &r, bool idle_only) {
+        if (t.in_cb || (t.enabled && !descs[t.desc].open)) return;
+        int di = pick_reinit_desc(t, r, idle_only);
+        if (di < 0) return;
+        if (t.enabled && r.chance(2, 3)) do_disable(t);
+        bool ok = reinit(t, di, pick_mask(di, r, !opt.equiv), r.chance(1, 4));
+        if (ok && r.chance(2, 3)) { do_enable(t); vh::counter("reinit_then_enabled"); }
+    }
+
     bool can_destroy(const Ev &e) const { return !e.in_cb && !e.pending_delete; }
 
     void destroy(Ev &e) {
@@ -488,7 +577,7 @@ struct World {
         ::close(mine);
         if (d.sock) { int sz = 2048; setsockopt(r, SOL_SOCKET, SO_SNDBUF, &sz, sizeof sz); setsockopt(other, SOL_SOCKET, SO_SNDBUF, &sz, sizeof sz); }
         else fcntl(d.side == 0 ? other : r, F_SETPIPE_SZ, 8192);
-        set_nonblock(r);
+        set_nonblock(r, d.cloexec);
         for (auto &dr : dirs) if (dr.from == di || dr.to == di) dr.dead = true;
         Chan c; c.sock = d.sock;
         int ci = (int)chans.size();
@@ -572,7 +661,7 @@ struct World {
                      vh::fmt("pass %d: %s called with %s but its descriptor d%d was ready for %s only (poll revents 0x%x)",
                              pass, evname(e).c_str(), mask_str(events).c_str(), e.desc, mask_str(d.snap).c_str(), d.snap_raw));
         }
-        if (e.last_cb_pass == pass) {
+        if (e.last_cb_pass == pass && !e.moved_since_cb) {
             // The back-end waits once per pass and that readiness was already delivered to this event: a second call
             // needs the descriptor to be ready still.
             vh::counter("cb_second_call_in_same_pass");
@@ -591,11 +680,13 @@ struct World {
                                  pass, evname(e).c_str(), mask_str(events).c_str(), e.desc, mask_str(now).c_str(), mask_str(d.snap).c_str()));
         }
         e.last_cb_pass = pass;
+        e.moved_since_cb = false;
         int hot = 0;
         for (auto &kv : evs) if (kv.second->desc == e.desc && kv.second->enabled) ++hot;
         if (hot + (e.oneshot ? 1 : 0) >= 2) vh::counter("cb_on_shared_fd");
         if (d.snap_raw & POLLHUP) vh::counter("cb_on_hup_fd");
         if (d.reincarnated && d.record_survives) vh::counter("cb_on_reused_fd_number_with_surviving_record");
+        if (e.nreinit) vh::counter("cb_on_reinitialised_event");
         if (events & kX) vh::counter("cb_reports_except");
         if ((size_t)pass < cb_log.size()) cb_log[pass].push_back(std::make_pair(id, events & e.mask & (kR | kW)));
         if (!d.served) ++served_fds;
@@ -828,8 +919,9 @@ struct World {
                     if (n > 0) saw_cross_mutation = true;
                 }
             }
-        } else {
-            // nothing
+        } else {                                          // re-target another event (reconnect pattern)
+            int c; Ev *t = pick_target(self, r, &c);
+            if (t && opt.cls != 0) { saw_cross_mutation = true; act_reinit(*t, r, false); }
         }
     }
 
@@ -869,7 +961,8 @@ struct World {
                     Ev *t = r.pick(v);
                     unsigned a = (unsigned)r.below(10);
                     saw_cross_mutation = true;
-                    if (a < 4) { log(" en " + evname(*t)); sig.add(0x33); if (!t->enabled) vh::counter("act_enable_on_not_ready_fd"); do_enable(*t); }
+                    if (a < 3) { log(" en " + evname(*t)); sig.add(0x33); if (!t->enabled) vh::counter("act_enable_on_not_ready_fd"); do_enable(*t); }
+                    else if (a < 5) act_reinit(*t, r, true);
                     else if (a < 7) { log(" dis " + evname(*t)); sig.add(0x23); if (t->enabled) vh::counter("act_disable_enabled_on_not_ready_fd"); do_disable(*t); }
                     else if (can_destroy(*t)) { log(" del " + evname(*t)); sig.add(0x53); vh::counter("act_destroy_on_not_ready_fd"); destroy(*t); }
                 }
@@ -944,6 +1037,10 @@ struct World {
 
     void between_passes() {
         reuse_numbers();
+        if (!evs.empty() && rs.chance(1, 2)) {
+            auto it = evs.begin(); std::advance(it, rs.below(evs.size()));
+            act_reinit(*it->second, rs, false);
+        }
         int n = (int)rs.below(4);
         for (int i = 0; i < n; ++i) {
             unsigned roll = (unsigned)rs.below(10);
@@ -1000,6 +1097,23 @@ struct World {
         if (zombies) {
             vh::counter(be + "_pass_with_enabled_event_on_closed_fd");
             if (idle_enabled) vh::counter("wait_failed_ebadf_with_nonready_enabled_events");   // select: EBADF; epoll: registration already gone
+        }
+        // select: the wait of this pass fails with EBADF (and nothing is dispatched) iff the loop still believes that an event
+        // on a closed descriptor is enabled
+        bool select_wait_fails = false;
+        if (be == "select")
+            for (auto &kv : evs) if (!descs[kv.second->desc].open && kv.second->p->isEnabled()) select_wait_fails = true;
+        if (zombies || select_wait_fails) {
+            int healthy = 0, healthy_nocloexec = 0;
+            for (auto &kv : evs) {
+                Ev &e = *kv.second;
+                if (e.enabled && descs[e.desc].open) { ++healthy; if (!descs[e.desc].cloexec) ++healthy_nocloexec; }
+            }
+            if (select_wait_fails) {
+                vh::counter("select_ebadf_pass");
+                if (healthy) vh::counter("select_ebadf_pass_with_healthy_events");
+                if (healthy_nocloexec) vh::counter("ebadf_pass_with_healthy_event_on_non_cloexec_descriptor");
+            }
         }
         tbox::event::TimerEvent *guard = nullptr;
         bool guard_fired = false;
@@ -1063,7 +1177,24 @@ struct World {
                 if (!en) vh::counter(be + "_auto_disabled_event_left_enabled_on_closed_fd");
                 continue;
             }
-            VH_CHECK(en == e.enabled, k("state/isEnabled-differs-from-model"), "after pass %d: %s isEnabled()=%d, model %d", pass, evname(e).c_str(), (int)en, (int)e.enabled);
+            VH_CHECK(en == e.enabled, k("state/isEnabled-differs-from-model"), "after pass %d: %s isEnabled()=%d, model %d (descriptor d%d %s close-on-exec%s)",
+                     pass, evname(e).c_str(), (int)en, (int)e.enabled, e.desc, descs[e.desc].cloexec ? "with" : "WITHOUT",
+                     select_wait_fails ? "; the wait of this pass failed with EBADF" : "");
+            // ebadf scenarios are not compared across back-ends, so the model demands service itself: an event that was enabled
+            // when the pass started, whose open descriptor was ready for a subscribed condition every back-end reports, and
+            // that nobody enabled / disabled / re-initialised / destroyed during the pass, must have been called in it -
+            // unless the wait of this pass failed (select, EBADF: nothing is dispatched, service resumes with the next pass)
+            if (opt.ebadf && !interrupted && e.enabled_snap && e.epoch == e.epoch_snap && descs[e.desc].open &&
+                (descs[e.desc].snap_strict & e.mask)) {
+                if (select_wait_fails) vh::counter("ebadf_pass_due_event_deferred_to_next_pass");
+                else {
+                    vh::counter("liveness_checked_due_events");
+                    if (e.nreinit) vh::counter("liveness_checked_reinitialised_event");
+                    VH_CHECK(e.last_cb_pass == pass, k("liveness/enabled-ready-event-not-served"),
+                             "pass %d: %s was enabled, untouched and its descriptor d%d was ready for %s when the pass started, but it was not called (isEnabled()=%d)",
+                             pass, evname(e).c_str(), e.desc, mask_str(descs[e.desc].snap_strict).c_str(), (int)en);
+                }
+            }
         }
         return true;
     }
@@ -1254,6 +1385,10 @@ void wait_failure_directed_case(int kind, const char *be) {
     int a = w.add_pipe(), b = w.add_pipe(), c = w.add_pipe();
     if (hole >= 0) ::close(hole);
     int ra = w.chans[a].d[0], rb = w.chans[b].d[0], rc = w.chans[c].d[0];
+    if (kind == 1) {    // the healthy events sit on plain pipe() descriptors (no close-on-exec), the closed one had it
+        int none[] = {ra, rc}; for (int di : none) { fcntl(w.descs[di].fd, F_SETFD, 0); w.descs[di].cloexec = false; }
+        fcntl(w.descs[rb].fd, F_SETFD, FD_CLOEXEC); w.descs[rb].cloexec = true;
+    }
     w.create(1, ra, kR, false, true, 0);
     w.create(2, rb, kR, false, true, 0);
     w.create(3, rc, kR, kind == 0, true, 0);
@@ -1284,6 +1419,56 @@ void wait_failure_directed_case(int kind, const char *be) {
     vh::note_case(w.sig.h, true);
 }
 
+// ---- differential directed histories for initialize() on an event that was initialised before (reconnect pattern):
+// E2 enabled on pipe P2; E1 first initialised on pipe P1, then re-targeted onto P2's read end. variant 0: E1 stays disabled;
+// 1: E1 is enabled as well; 2: E1 was enabled on P1, is disabled, re-targeted and enabled, and E3 on P3 destroys E1 from
+// inside its callback one pass later. E2 must be served whenever P2 is readable, on both back-ends.
+void run_reinit_history(World &w, int variant) {
+    w.start();
+    w.log(vh::fmt("[%s reinit %d]", w.be.c_str(), variant));
+    int p1 = w.add_pipe(), p2 = w.add_pipe(), p3 = w.add_pipe();
+    int r1 = w.chans[p1].d[0], r2 = w.chans[p2].d[0], r3 = w.chans[p3].d[0];
+    for (int c : {p1, p2, p3}) w.descs[w.chans[c].d[1]].watchable = false;
+    w.create(2, r2, kR, false, true, 0);
+    w.create(1, r1, kR, false, variant == 2, 0);
+    w.create(3, r3, kR, false, true, 0);
+    w.script = [variant](World &W, Ev &self, int) {
+        W.drain_fd(W.descs[self.desc].fd);
+        if (variant == 2 && self.id == 3 && W.pass == 2) { Ev *e1 = W.find(1); if (e1 && W.can_destroy(*e1)) { W.log(" del " + W.evname(*e1)); W.destroy(*e1); } }
+    };
+    if (!w.run_pass()) { w.teardown(); return; }                     // pass 0: nothing readable
+    Ev *e1 = w.find(1);
+    if (e1) {
+        if (e1->enabled) w.do_disable(*e1);
+        w.reinit(*e1, r2, kR, false);
+        if (variant >= 1) w.do_enable(*e1);
+    }
+    for (int pass = 1; pass <= 3; ++pass) {
+        w.set_level(w.dirs[1], 2);                                   // P2 readable
+        if (pass == 2) w.set_level(w.dirs[2], 2);                    // P3 readable too
+        if (!w.run_pass()) { w.teardown(); return; }
+    }
+    Ev *e2 = w.find(2);
+    if (e2) { w.do_disable(*e2); w.do_enable(*e2); }                 // must still work on its record
+    w.set_level(w.dirs[1], 2);
+    w.run_pass();
+    w.teardown();
+}
+
+void reinit_directed_case(int variant) {
+    Options o; o.equiv = true; o.cls = 3;
+    World a("epoll", 4000 + variant, o);
+    run_reinit_history(a, variant);
+    World b("select", 4000 + variant, o);
+    b.quiet = true;
+    run_reinit_history(b, variant);
+    if (!a.abandon && !b.abandon) compare_backends(a, b);
+    vh::counter("directed_cases");
+    vh::counter("directed_reinit_pairs");
+    a.sig.add(0x7200 + variant);
+    vh::note_case(a.sig.h, true);
+}
+
 void reuse_directed_case(int variant) {
     Options o; o.equiv = true; o.cls = 3;
     World a("epoll", 2000 + variant, o);
@@ -1304,6 +1489,7 @@ void reuse_directed_case(int variant) {
 const int kDirected = 14;
 
 void directed_case(uint64_t idx, vh::Rng &) {
+    if (idx >= 2 * (uint64_t)kDirected + 7) { reinit_directed_case((int)((idx - 2 * kDirected - 7) % 3)); return; }
     if (idx >= 2 * (uint64_t)kDirected + 3) {
         uint64_t j = (idx - 2 * kDirected - 3) % 4;
         wait_failure_directed_case((int)(j / 2), (j & 1) ? "select" : "epoll");
